@@ -58,7 +58,11 @@ class Method:
                 and isinstance(call.func.value, ast.Name) and call.func.value.id in self.file_names)
 
     def is_self_call(self, call):
-        return isinstance(call, ast.Call) and is_self_attr(call.func) and call.func.attr.startswith('_write')
+        if isinstance(call, ast.Call) and is_self_attr(call.func) and call.func.attr.startswith('_write'):
+            return True
+        # a module-level helper that is handed the file (e.g. write_table(vtkFile, A)) produces output too
+        return (isinstance(call, ast.Call) and isinstance(call.func, ast.Name)
+                and any(isinstance(a, ast.Name) and a.id in self.file_names for a in call.args))
 
     def has_output(self, node):
         return any(self.is_file_write(n) or self.is_self_call(n) for n in ast.walk(node))
@@ -165,13 +169,16 @@ class Method:
                     dicts = [self.dict_origin(a) for a in call.args if not (isinstance(a, ast.Name) and a.id in self.file_names)]
                     if len(dicts) > 1:
                         raise ExtractError('%s: section writer called with %d data arguments' % (self.where(st), len(dicts)))
+                    if isinstance(call.func, ast.Name):      # module-level helper: its own row describes what it writes
+                        out.append('SCall %s %s' % (cstr(call.func.id), cstr('')))
+                        continue
                     out.append('SCall %s %s' % (cstr(call.func.attr), cstr(dicts[0] if dicts else '')))
                     continue
             if isinstance(st, ast.For) and not st.orelse:
                 it = st.iter
                 over = it.attr if is_self_attr(it) else (it.id if isinstance(it, ast.Name) and it.id in self.params else None)
-                if over is None:
-                    raise ExtractError('%s: output inside a loop over %s' % (self.where(st), ast.unparse(it)[:60]))
+                if over is None:        # a loop the model has no counterpart for: kept verbatim, never equal to the model's table
+                    over = 'UNMODELLED: ' + ast.unparse(it)[:80]
                 out.append('SFor %s %s' % (cstr(over), self.block(st.body)))
                 continue
             if isinstance(st, ast.If):
@@ -198,6 +205,11 @@ def gen_cfg_vtk(repo, outdir):
                 m.file_names = {'vtkFile'}
                 if m.has_output(fn):
                     raise ExtractError('%s produces output' % fn.name)
+        # module-level helpers that receive the file
+        for fn in [n for n in tree.body if isinstance(n, ast.FunctionDef)]:
+            m = Method(fn)
+            if m.file_names and m.has_output(fn):
+                rows.append('(%s, %s)' % (cstr(fn.name), m.block(fn.body)))
         names = [fn.name for fn in methods]
         if 'write' not in names:
             raise ExtractError('VTKWriter.write not found')
